@@ -26,7 +26,7 @@ TYC = {'$': 3, '%': 2, '!': 4, '#': 8}
 STR_SCALARS = ['A$', 'B$', 'C$', 'X$', 'Y$']
 NUM_SCALARS = ['Q!', 'R!', 'N%', 'D#', 'X!', 'Y%', 'Z#']
 STR_ARRAYS = ['S$', 'T$']
-ARR_OBS = 11          # elements 0..10 of each array are observed
+ARR_OBS = 13          # elements 0..12 of each array are observed (DIM goes up to 12)
 HASH_MOD = 1000003
 SNG_MAX = (2 ** 24 - 1) * 2 ** 103
 
@@ -792,7 +792,21 @@ def check_trace(case, res, strict_fre=True):
         # FRE after a collection = memory size - program - variables - arrays - live string bytes
         if strict_fre and ierr == 0 and st[0] == 'let' and st[1][0] == 'sv' and st[1][1][-1] != '$' \
                 and st[2][0] == 'fre' and (st[2][1][0] == 'lit' or (st[2][1][0] == 'sv' and st[2][1][1][-1] == '$')):
-            want = o['top'] - cfg['var_start'] - o['scur'] - o['acur'] - ref.live_bytes()
+            # live string bytes: every distinct string-space address held by a variable, once
+            # (whether a value is a program literal or a copy of it is the implementation's business: after a
+            # collection without permanent strings LET copies literals; the observed pointer kind tells)
+            live = {}
+            for n in STR_SCALARS:
+                p = o['sv'][n]
+                if p is not None and p[0] == 1:
+                    live[p[3]] = p[1]
+            for n in STR_ARRAYS:
+                a = o['arr'][n]
+                if a is not None:
+                    for p in a[1]:
+                        if p[0] == 1:
+                            live[p[3]] = p[1]
+            want = o['top'] - cfg['var_start'] - o['scur'] - o['acur'] - sum(live.values())
             got = o['nv'].get(st[1][1])
             if got != want:
                 return ('%s: FRE after collection reports %s, memory minus program, variables, arrays and live '
